@@ -13,7 +13,9 @@
 (*                         illcond (measured: design matrix on the masked knots numerically    *)
 (*                         singular, condition number above 1e5), gsb / gsa (global state      *)
 (*                         before / after), argsok (the fit was handed the caller's data:       *)
-(*                         same (x, y, weight) triples, weights clipped at 0, x non-decreasing)] *)
+(*                         same (x, y, weight) triples, weights clipped at 0, x non-decreasing), *)
+(*                         weak (basis functions, by rank, whose measured influence sum w B^2   *)
+(*                         is positive but below 1e-6 of the mean weight)]                      *)
 (*                    return [mask, finite]     refuse []                                       *)
 (*                    data [pc, more]: the caller hands OTHER data to the same object (new       *)
 (*                    support counts; at most `more` further fits)                                *)
@@ -152,7 +154,7 @@ TFit == /\ Ev.a = "fit"
         /\ StatePreserved(Ev.gsb, Ev.gsa)
         /\ Ev.argsok
         /\ \/ Ev.st = 0 /\ FitOK /\ ToSet(Ev.after) = bkmask
-           \/ Ev.st = -1 /\ FitDrop(ToSet(Ev.after))
+           \/ Ev.st = -1 /\ FitDropW(ToSet(Ev.after), ToSet(Ev.weak))
            \/ Ev.st = -2 /\ FitFail /\ ToSet(Ev.after) = bkmask
            \/ Ev.illcond /\ FitGiveUp(Ev.st, ToSet(Ev.after))
 TData == Ev.a = "data" /\ NewData(Ev.pc, Ev.more) /\ SupportOK([nord |-> prob.nord, S |-> prob.S, pc |-> Ev.pc])
